@@ -161,7 +161,7 @@ pub trait Driver {
    fn iters(&self) -> String;
    /// run() inside a freshly built rayon pool of `n` threads (whatever pool the instance was constructed in)
    fn run_in(&mut self, n: usize) {
-      let pool = ascent::rayon::ThreadPoolBuilder::new().num_threads(n).build().unwrap();
+      let pool = pool_of(n);
       // the instance is used by exactly one pool thread for the duration of the call
       struct Whole<T: ?Sized>(*mut T);
       unsafe impl<T: ?Sized> Send for Whole<T> {}
@@ -285,4 +285,14 @@ pub fn main_loop(progs: &[(&str, Factory)]) {
       }
    }
    out.flush().unwrap();
+}
+
+/// one rayon pool per size, shared by all instances of the process (a pool per instance exhausts the OS thread limit in long runs:
+/// `ThreadPoolBuildError { WouldBlock }` was a false alarm of the thorough tier)
+pub fn pool_of(n: usize) -> std::sync::Arc<ascent::rayon::ThreadPool> {
+   use std::collections::HashMap;
+   use std::sync::{Arc, Mutex, OnceLock};
+   static POOLS: OnceLock<Mutex<HashMap<usize, Arc<ascent::rayon::ThreadPool>>>> = OnceLock::new();
+   let mut m = POOLS.get_or_init(|| Mutex::new(HashMap::new())).lock().unwrap();
+   m.entry(n).or_insert_with(|| Arc::new(ascent::rayon::ThreadPoolBuilder::new().num_threads(n).build().unwrap())).clone()
 }
